@@ -78,6 +78,11 @@ let () =
     match print_node (node_of (Sexp.parse (String.concat " " a))) with
     | Some v -> ["some"; hex_of_bstr v]
     | None -> ["none"]);
+  (* tokens_of <sexp>: the items the Spec says the printed text lexes to, as #typ hexval ... *)
+  register "tokens_of" (fun a ->
+    let n = node_of (Sexp.parse (String.concat " " a)) in
+    let ts = (match n with NPrint _ -> tokens_of_print n | _ -> tokens_of n) in
+    List.concat_map (fun t -> [n_s t.t_typ; hex_of_bstr t.t_val]) ts);
   register "parse_float" (fun a ->
     match a with
     | [s] -> (match parse_float (bstr_of_hex s) with Some f -> ["some"; Sexp.to_string (fl_to f)] | None -> ["none"])
